@@ -167,15 +167,22 @@ func runC04(r *an.Run) {
 				}
 			}
 			g := p.Func(lw + "findOutputIndexesFromRemote")
+			nIdx := 0
+			defer func() {
+				if nIdx != 2 {
+					o.FailAt(g.ID+"#index-assignments", g.Where(g.Body.Pos()), "expected the two output index assignments (ours, theirs) in the search loop, found %d", nIdx)
+				}
+			}()
 			// case bytes.Equal(txOut.PkScript, ourScript.PkScript()): ourIndex = ...
 			for _, s := range g.Assigns(func(fn *an.Func, e ast.Expr) bool { _, ok := e.(*ast.Ident); return ok }, false) {
 				as := s.Node.(*ast.AssignStmt)
 				if as.Tok.String() != "=" || len(as.Lhs) != 1 {
 					continue
 				}
-				if !strings.HasPrefix(g.Canon(as.Rhs[0]), "uint32($v:int)") {
+				if c := g.Canon(as.Rhs[0]); !strings.HasPrefix(c, "uint32($v:int)") && !strings.HasPrefix(c, "uint32($key(") {
 					continue
 				}
+				nIdx++
 				guards := strings.Join(g.GuardsAt(s), " ; ")
 				name := as.Lhs[0].(*ast.Ident).Name
 				o.Site("%s under [%s]", s.String(), guards)
